@@ -10,6 +10,8 @@ namespace Fpdec.Kernels
 open Fpdec
 
 theorem bind_ok' {α β} (a : α) (f : α → Outcome β) : (Outcome.ok a >>= f) = f a := (Outcome.bind_ok a f).trans rfl
+theorem bind_panic' {α β} (k : PanicKind) (f : α → Outcome β) : (Outcome.panic k >>= f) = Outcome.panic k :=
+  (Outcome.bind_panic k f).trans rfl
 theorem pure_eq' {α} (a : α) : (pure a : Outcome α) = .ok a := (Outcome.pure_eq a).trans rfl
 
 theorem bind_congr {α β} (o : Outcome α) {f g : α → Outcome β} (h : ∀ a, f a = g a) : (o >>= f) = (o >>= g) := by
